@@ -771,3 +771,77 @@ func VerifHarness_LoopTyping() {
 		errors.VerifAssert("loop-without-own-break-never-completes:well-typed-program-accepted", !an.hasError)
 	}
 }
+
+// ---- function values meeting each other ----
+
+// VerifHarness_FnValueRules: two function values flow into one place (branches of an if / match, elements of a list,
+// a later assignment, a parameter). The program is well-typed iff their function types agree: the host's variadic
+// printers with each other, fixed-arity functions with equal parameter lists and results.
+var vrFnValues = []struct {
+	expr  string
+	class int // functions of one class have the same type
+}{
+	{"print", 0},
+	{"println", 0},
+	{"inc", 1},
+	{"dec", 1},
+	{"fn(n: int) -> int { n * 2 }", 1},
+	{"len_of", 2},
+	{"two", 3},
+	{"fn(n: int) -> str { \"s\" }", 4},
+}
+var vrFnPlaces = []string{
+	"let f = if c { %A } else { %B };",
+	"let f = match c { true => %A, _ => %B };",
+	"let l = [%A, %B];\n  let f = l[0];",
+	"let f = %A;\n  f = %B;",
+	"let f = { if c { %A } else { %B } };",
+	"let f = pick(%A, %B);",
+}
+
+func VerifHarness_FnValueRules() {
+	a := errors.VerifNdIntRange("a", 0, len(vrFnValues)-1)
+	b := errors.VerifNdIntRange("b", 0, len(vrFnValues)-1)
+	pl := errors.VerifNdIntRange("place", 0, len(vrFnPlaces)-1)
+	if pl == 5 && (vrFnValues[a].class != 1 || a > 3) {
+		errors.VerifReached("not-applicable") // pick() takes fn(n: int) -> int as its first parameter
+		return
+	}
+	stmt := ""
+	f := vrFnPlaces[pl]
+	for i := 0; i < len(f); i++ {
+		if f[i] == '%' && i+1 < len(f) {
+			if f[i+1] == 'A' {
+				stmt += vrFnValues[a].expr
+			} else {
+				stmt += vrFnValues[b].expr
+			}
+			i++
+			continue
+		}
+		stmt += string(f[i])
+	}
+	errors.VerifTag("case", fmt.Sprintf("%s with A=%s B=%s", vrFnPlaces[pl], vrFnValues[a].expr, vrFnValues[b].expr))
+	code := "fn inc(n: int) -> int { n + 1 }\nfn dec(n: int) -> int { n - 1 }\nfn len_of(s: str) -> int { s.len() }\nfn two(n: int, m: int) -> int { n + m }\n" +
+		"fn pick(x: fn(n: int) -> int, y: fn(n: int) -> int) -> fn(n: int) -> int { x }\n" +
+		"fn main() {\n  let c = true;\n  " + stmt + "\n  println(c);\n}\n"
+	verifDebug("program", code)
+	var an verifAnalysis
+	panicked, pmsg := errors.VerifPanics(func() { an = verifAnalyze(code, nil, nil, true) })
+	if panicked {
+		vrAnalyzerPanicked(pmsg)
+		return
+	}
+	errors.VerifReached("analyzed")
+	vrSpansHook(an, code)
+	if an.hasError {
+		errors.VerifTag("diag", an.describe())
+	}
+	if vrFnValues[a].class != vrFnValues[b].class {
+		errors.VerifAssert("ill-typed-program-rejected", an.hasError)
+	} else if pl != 2 && pl != 3 {
+		// reading a function out of a list and re-assigning a function variable need a run-time check, which the
+		// language refuses for function values: only totality is claimed for those two places
+		errors.VerifAssert("well-typed-program-accepted", !an.hasError)
+	}
+}
